@@ -32,7 +32,8 @@ ASSUMPTIONS = [
     'errstate (the statement scopes the reactions profile only)',
 ]
 ANCHORS = ['ErrorProfile.test', 'ErrorProfile._handle_error', 'seterr', 'geterr', 'seterrcall', 'geterrcall', 'errcheck', 'errstate']
-REQUIRED = ['two_kind_reactions_checked', 'refused_calls_naming_all', 'steps_checked', 'errstate_decorated_calls',
+REQUIRED = ['errstate_prebuilt_blocks',
+            'errstate_decorated_then_profile_changed', 'two_kind_reactions_checked', 'refused_calls_naming_all', 'steps_checked', 'errstate_decorated_calls',
             'errstate_exception_exits', 'refused_calls',
             'reaction_raise', 'reaction_ignore', 'reaction_warn',
             'reaction_print', 'reaction_call', 'reaction_clean_inputs']
@@ -217,14 +218,9 @@ def _exec(ctx, err, model, step, prog, depthlog):
     elif op == 'errstate_deco':
         # the scoped override used as a decorator, on a function that calls
         # itself (and a second function sharing the same decorator object)
-        _, kw, depth, exit_ = step
-        saved = dict(model.state)
+        _, kw, depth, exit_ = step[:4]
+        pre = step[4] if len(step) > 4 else []
         cm = err.errstate(**kw)
-        inside = dict(saved)
-        if 'all' in kw:
-            inside = {k: kw['all'] for k in KINDS}
-        else:
-            inside.update(kw)
         seen = []
 
         @cm
@@ -239,6 +235,20 @@ def _exec(ctx, err, model, step, prog, depthlog):
                 g()
             elif exit_ == 'raise':
                 raise Boom()
+        # the functions are decorated; the profile may change before they
+        # are called
+        for s_ in pre:
+            _exec(ctx, err, model, s_, prog, depthlog)
+            _check_profile(ctx, err, model, 'step %r (before a decorated '
+                           'call)' % (s_,), prog)
+        if pre:
+            ctx.count('errstate_decorated_then_profile_changed')
+        saved = dict(model.state)
+        inside = dict(saved)
+        if 'all' in kw:
+            inside = {k: kw['all'] for k in KINDS}
+        else:
+            inside.update(kw)
         try:
             f(depth)
         except Boom:
@@ -256,11 +266,24 @@ def _exec(ctx, err, model, step, prog, depthlog):
                                 'profile was %r, expected %r' % (kw, st,
                                                                  inside))
         model.state = saved
-    elif op == 'errstate':
-        _, kw, body, exit_ = step
+    elif op in ('errstate', 'errstate_prebuilt'):
+        if op == 'errstate_prebuilt':
+            # the override object is built first, the profile is changed,
+            # and only then is the block entered: "previous profile" is the
+            # one in force when the block starts
+            _, kw, pre, body, exit_ = step
+            cm = err.errstate(**kw)
+            for s in pre:
+                _exec(ctx, err, model, s, prog, depthlog)
+                _check_profile(ctx, err, model, 'step %r (before a prebuilt '
+                               'block)' % (s,), prog)
+            ctx.count('errstate_prebuilt_blocks')
+        else:
+            _, kw, body, exit_ = step
+            cm = err.errstate(**kw)
         saved = dict(model.state)
         try:
-            with err.errstate(**kw):
+            with cm:
                 if 'all' in kw:
                     for k in KINDS:
                         model.state[k] = kw['all']
@@ -291,7 +314,7 @@ def _is_nontrivial(prog):
             return True
         if s[0] == 'errstate' and (s[3] == 'raise' or _is_nontrivial(s[2])):
             return True
-        if s[0] == 'errstate_deco':
+        if s[0] in ('errstate_deco', 'errstate_prebuilt'):
             return True
     return False
 
@@ -304,16 +327,28 @@ def _rand_prog(r, maxlen, depth=0):
             kw = {'all': r.choice(STATES)} if r.random() < .3 else \
                 {k: r.choice(STATES) for k in r.sample(KINDS, r.randint(1,
                                                                         3))}
+            pre = [('seterr_multi', {k: r.choice(STATES) for k in
+                                     r.sample(KINDS, r.randint(1, 3))})] \
+                if r.random() < .5 else []
             prog.append(('errstate_deco', kw, r.randint(0, 3),
-                         r.choice(['normal', 'raise'])))
+                         r.choice(['normal', 'raise']), pre))
         elif x < .25 and depth < 4:
             if r.random() < .25:
                 kw = {'all': r.choice(STATES)}
             else:
                 kw = {k: r.choice(STATES) for k in r.sample(KINDS,
                                                             r.randint(1, 3))}
-            prog.append(('errstate', kw, _rand_prog(r, 4, depth + 1),
-                         r.choice(['normal', 'raise'])))
+            if r.random() < .3:
+                pre = [('seterr_multi', {k: r.choice(STATES) for k in
+                                         r.sample(KINDS, r.randint(1, 3))})]
+                if r.random() < .3:
+                    pre.append(('seterr_all', r.choice(STATES)))
+                prog.append(('errstate_prebuilt', kw, pre,
+                             _rand_prog(r, 3, depth + 1),
+                             r.choice(['normal', 'raise'])))
+            else:
+                prog.append(('errstate', kw, _rand_prog(r, 4, depth + 1),
+                             r.choice(['normal', 'raise'])))
         elif x < .5:
             prog.append(('seterr_multi', {k: r.choice(STATES) for k in
                                           r.sample(KINDS, r.randint(1, 4))}))
